@@ -270,6 +270,10 @@ def check(prog, run):
     run.rule("R-slots", "every applymask call gets its filtered tables back into the variables they came from, position by position (values of the retained poles unchanged)", 4)
     slots(prog, run)
     slot_provenance(prog, run, "R-slots")
+    run.rule("R-falsy", "a criterion set to 0 / 0.0 / False is that setting, not a missing one: no `<setting> or <default>` on the criteria dictionaries "
+             "between run_params and the criteria", 0)
+    runs_ = [m_.qual for mod_ in ("pyoma2.algorithms.ssi", "pyoma2.algorithms.plscf") for _, m_ in prog.raw.class_methods(mod_, "run")]
+    astq.falsy_default_rule(prog.raw, run, "R-falsy", runs_)
     run.assume("dependence (taint) analysis: a criterion 'reaches' a table if the table's value depends on a mask computed from that criterion's value; "
                "it is a necessary condition for the criterion to take effect, not a proof that the right poles are removed")
     classes_rules(prog, run, CLASSES, {"reach": "R-reach", "pattern": "R-same-pattern", "bind": "R-bind"})
